@@ -46,6 +46,12 @@ THEOREMS = [
         "optFlat_sound", "optNested_sound", "metric_param_keys_valid", "checkParameters_sound", "support_tasks_wellformed",
         "config_accept_sound", "config_ignores_unread_key", "sensing_accept_sound",
         "critical_accept_sound", "passfail_accept_sound",
+        # audit round 2: nLabels tied to the configuration's own target-label list (through the C14 converter model), sharp
+        # per-list statements, error exits, idempotence for every n
+        "config_nLabels_is_target_count", "config_targets_closed_form", "config_accept_sound_targets",
+        "metrics_params_keys_fixed", "config_rejects_bad_targets", "target_list_error_iff",
+        "config_rejects_both_range_kinds", "config_rejects_incomplete_range_3d", "label_enum_sizes_pos",
+        "frame_config_n_is_target_count", "setThresholds_idem_iff",
     ]
 ]
 RULE = (
@@ -781,7 +787,28 @@ def corpus():
                 cs.append(j["case"])
             elif isinstance(j, list):
                 cs.extend(j)
+    cs.extend(_target_label_cases())
     return cs
+
+
+def _target_label_cases():
+    """audit round 2: configurations whose target_labels are aliases / case variants / unregistered names, under both merge
+    settings and both label families -- the converted LIST (not only its length) is compared with the model's configTargetLabels"""
+    out = []
+    names = [["Trailer", "BUS", "motorcycle", "vehicle.car"], ["PEDESTRIAN", "pedestrian.adult", "nonsense"], ["animal", "Truck"],
+             ["static_object.forklift", "forklift", "false_positive"]]
+    for tl in names:
+        for merge in (False, True, 1, "yes", [], None):
+            for task in ("detection", "tracking", "detection2d"):
+                d = [(k, v) for k, v in base_config(task, "xy", nlab=len(tl)) if k not in ("target_labels", "merge_similar_labels")]
+                d += [("target_labels", W(tl)), ("merge_similar_labels", W(merge))]
+                out.append(pcfg_case(d, _default_frames(task)))
+    for tl in (["GREEN", "red_left", "crosswalk_red", "red_left_straight"], ["traffic_light", "Yellow", "unknown"]):
+        for task in ("detection2d", "tracking2d", "classification2d"):
+            d = [(k, v) for k, v in base_config(task, "none", prefix="traffic_light", nlab=3) if k != "target_labels"]
+            d += [("target_labels", W(tl))]
+            out.append(pcfg_case(d, _default_frames(task)))
+    return out
 
 
 def _size(w):
@@ -887,6 +914,7 @@ def run_impl(case):
             out["metrics"] = {kk: from_py(v) for kk, v in c.metrics_params.items()}
             return {"ok": out}
         out["n"] = len(c.target_labels)
+        out["labels"] = [getattr(l, "name", repr(l)) for l in c.target_labels]
         out["n_f"] = len(fp["target_labels"])
         out["filtering"] = {kk: from_py(v) for kk, v in fp.items() if kk != "target_labels"}
         mc = c.metrics_config
@@ -936,8 +964,12 @@ def model_requests(case, out):
         return [{"op": "check_thresholds" if k == "chk" else "check_nested_thresholds", "v": to_model(case["v"]), "n": case["n"]}]
     if k in ("pcfg", "scfg"):
         fr = case["frames"]
-        return [{"op": "perception_config" if k == "pcfg" else "sensing_config",
+        reqs = [{"op": "perception_config" if k == "pcfg" else "sensing_config",
                  "d": [[kk, to_model(v)] for kk, v in case["d"]], "frames": [fr] if isinstance(fr, str) else list(fr)}]
+        if k == "pcfg":
+            # audit round 2: the converted target-label LIST of the same configuration (model: configTargetLabels)
+            reqs.append({"op": "config_targets", "d": [[kk, to_model(v)] for kk, v in case["d"]]})
+        return reqs
     if k == "crit":
         return [{"op": "critical_config", "args": [[kk, to_model(v)] for kk, v in case["args"]],
                  "is2d": case["task"] not in IS_3D, "nAll": _n_all(case["prefix"])}]
@@ -956,6 +988,13 @@ def compare(case, out, resps):
     a, b = out["ok"], r["ok"]
     if a["n"] != b["n"]:
         return f"number of target labels: impl {a['n']} != model {b['n']}"
+    if k == "pcfg" and len(resps) > 1:
+        # an accepted configuration: the model's target-label list is the real `target_labels`, and `n` is its length
+        t = resps[1]
+        if "ok" not in t:
+            return f"target labels: impl {a.get('labels')} != model {_short(t)}"
+        if a.get("labels") != t["ok"] or len(t["ok"]) != b["n"]:
+            return f"target labels: impl {a.get('labels')} != model {t['ok']} (model n = {b['n']})"
     mf = dict((kk, v) for kk, v in b["filtering"])
     if k in ("pcfg", "scfg"):
         if a["task"] != b["task"]:
